@@ -110,3 +110,10 @@ CLAIMED['C17'] = ('6/C17', 'Bounded-exhaustive symbolic check (finite domains): 
                   'copy (set, in-place mutation, Parameter-attribute edit, sub-object set, linking/overriding a reference, source update); '
                   'copy succeeds, state is equal, nothing mutable is shared, dependent methods and watchers act on the right side only.',
                   'symbolic execution (CrossHair+z3) of copy/pickle state capture and restore with symbolic histories on both sides')
+CLAIMED['C19'] = ('6/C19', 'Bounded-exhaustive symbolic check (finite time domain [0,3]): two instances with a call-counting dynamic value, a '
+                  'time-function generator that raises at time 0 and a seeded time-dependent numbergen.UniformRandom; every program of k=3/5 '
+                  'symbolic operations (set time, advance, read on either instance, inspect_value, nested time contexts left normally or by '
+                  'StopIteration, state push/pop); a table keyed by (generator, time) gives the same value whatever the visiting order and '
+                  'instance, repeated reads and inspection do not call the generator, a failing generator fails again at the same time, '
+                  'contexts restore the time exactly, push/pop restores cached value and time stamp.',
+                  'symbolic execution (CrossHair+z3) of Dynamic/Time/numbergen with symbolic operation sequences against a (generator,time) table')
